@@ -224,7 +224,7 @@ func C15() int {
 	reportBatchAnomalies(c)
 	c.Set("namespace_relations_seen", relSeen)
 	c.Set("plan_summary_forms", sumForms)
-	c.Set("race_reports", s.RaceReports())
+	raceVerdict(s, c)
 	if c.Counter("lines") < 2000 || c.Counter("foreign_namespace_lines") < 200 {
 		c.Inconclusive("too few lines")
 	}
